@@ -546,6 +546,12 @@ pub fn run(tier: Tier, replay: Option<&str>) {
                         dev.clock_start = Some(0xFFFF_E000);
                     }
                     hist_cfgs.push(HistCfg { front: front.into(), dev: dev.clone() });
+                    if !otaa && offs == 0 && front != "nb" && *region == "EU868" {
+                        // an application that leaves received downlinks in the (one-entry) queue through the next uplink
+                        let mut d = dev.clone();
+                        d.hold_downlinks = true;
+                        hist_cfgs.push(HistCfg { front: front.into(), dev: d });
+                    }
                     // fixed plans joined under a join bias: the first data uplinks stay on the preferred sub-band at a
                     // forced data rate - the windows follow the rate actually used, not the configured one
                     if otaa && rr::is_fixed(region) && offs == 0 {
@@ -579,7 +585,7 @@ pub fn run(tier: Tier, replay: Option<&str>) {
         "capped": capped,
         "evaluations": ctx.evals(),
         "distinct_nontrivial": nontrivial.load(Ordering::Relaxed),
-        "rule": "(H) BFS over histories on one device instance per region x front-end x {ABP, OTAA, OTAA under a join bias with 1 / 8 retries (72-channel plans)}: uplinks (first RNG draw from a set), uplinks answered in RX1 or RX2 by RXParamSetupReq (valid: offset 1 / regional maximum, another RX2 data rate and frequency, back to the defaults; invalid in one field: RX2 data rate 14 (RFU in every region), out-of-band frequency, offset above the regional maximum), RXTimingSetupReq 0 / 2 / 15, DlChannelReq, NewChannelReq create / redefine / delete, LinkADRReq (mask down to the extra channel, all channels, lowest data rate), set_datarate lowest / highest, (nb) set_datarate between TX and the windows, (async) a radio call of the uplink failing once, (Class C) a continuous reception between the windows reporting an error, unanswered join attempts and (re-)joins whose accept carries other DLSettings / RxDelay in RX1 or RX2; every transaction that transmits is judged against a reference model of the parameters in force (updated only by requests that are unambiguously valid) and the regional tables: RX1 frequency and data rate, RX2 frequency and data rate, Class C parameters, window size limits, window times (nb clock started shortly before its 2^32 ms wrap); states = distinct (device snapshot minus counters and keys, front-end state, reference model). Plus eight full sub-products per region and front-end (nb, async, async+Class C), each case a fresh real device brought into the configuration by authentic RXParamSetupReq / RXTimingSetupReq / DlChannelReq downlinks and set_datarate: (P1) every region-defined uplink data rate x RX1DROffset 0..7 x first RNG draw (all 64 for the 72-channel plans); (P2) RXTimingSetupReq delay 0..15 x board offset/lead {0,15,50,100} x TX end time; (P2b, nb) TX end times around 2^31 ms and the 2^32 ms wrap of the clock x delay x offset; (P2c, nb) boards whose receive windows last 999 / 1000 / 1001 / 1500 / 2500 ms (RX1 still open when RX2 is due); (P3) all 16 RX2 data rate values x 2 frequencies x lowest/highest uplink rate; (P4) DlChannelReq on channels 0..3 x 2 frequencies x draws; (P5) joins under join-bias settings x draws; (P6, nb) set_datarate between TX and the windows; (P7) a re-join on a default channel after DlChannelReq remapped its downlink frequency; (P8) NewChannelReq, DlChannelReq, then a NewChannelReq redefining the same channel; (P9) DlChannelReq on a default channel, the mask reduced to an extra channel, that channel deleted (fallback to the default channels). non-trivial = cases with an installed override or a join",
+        "rule": "(H) BFS over histories on one device instance per region x front-end x {ABP, OTAA, OTAA under a join bias with 1 / 8 retries (72-channel plans)}: uplinks (first RNG draw from a set), uplinks answered in RX1 or RX2 by RXParamSetupReq (valid: offset 1 / regional maximum, another RX2 data rate and frequency, back to the defaults; invalid in one field: RX2 data rate 14 (RFU in every region), out-of-band frequency, offset above the regional maximum), RXTimingSetupReq 0 / 2 / 15 (also together with application payload, on async devices whose application leaves downlinks in the queue through the next uplink), DlChannelReq (also refused ones: out of band, zero), NewChannelReq create / redefine / delete, LinkADRReq (mask down to the extra channel, all channels, lowest data rate), set_datarate lowest / highest, (nb) set_datarate between TX and the windows, (async) a radio call of the uplink failing once, (Class C) a continuous reception between the windows reporting an error, unanswered join attempts and (re-)joins whose accept carries other DLSettings / RxDelay in RX1 or RX2; every transaction that transmits is judged against a reference model of the parameters in force (updated only by requests that are unambiguously valid) and the regional tables: RX1 frequency and data rate, RX2 frequency and data rate, Class C parameters, window size limits, window times (nb clock started shortly before its 2^32 ms wrap); states = distinct (device snapshot minus counters and keys, front-end state, reference model). Plus eight full sub-products per region and front-end (nb, async, async+Class C), each case a fresh real device brought into the configuration by authentic RXParamSetupReq / RXTimingSetupReq / DlChannelReq downlinks and set_datarate: (P1) every region-defined uplink data rate x RX1DROffset 0..7 x first RNG draw (all 64 for the 72-channel plans); (P2) RXTimingSetupReq delay 0..15 x board offset/lead {0,15,50,100} x TX end time; (P2b, nb) TX end times around 2^31 ms and the 2^32 ms wrap of the clock x delay x offset; (P2c, nb) boards whose receive windows last 999 / 1000 / 1001 / 1500 / 2500 ms (RX1 still open when RX2 is due); (P3) all 16 RX2 data rate values x 2 frequencies x lowest/highest uplink rate; (P4) DlChannelReq on channels 0..3 x 2 frequencies x draws; (P5) joins under join-bias settings x draws; (P6, nb) set_datarate between TX and the windows; (P7) a re-join on a default channel after DlChannelReq remapped its downlink frequency; (P8) NewChannelReq, DlChannelReq, then a NewChannelReq redefining the same channel; (P9) DlChannelReq on a default channel, the mask reduced to an extra channel, that channel deleted (fallback to the default channels). non-trivial = cases with an installed override or a join",
         "samples": [serde_json::to_value(&cases[0]).unwrap(), serde_json::to_value(&cases[cases.len() / 2]).unwrap(), serde_json::to_value(cases.last().unwrap()).unwrap()],
         "exhaustive": !capped,
         "regions": regions,
@@ -660,6 +666,9 @@ impl WModel {
         let (lo, hi) = rr::band(region);
         let inband = |f: u32| f >= lo && f <= hi;
         let f24 = |x: &[u8]| (x[0] as u32 | (x[1] as u32) << 8 | (x[2] as u32) << 16) * 100;
+        if b.is_empty() {
+            return;
+        }
         match b[0] {
             0x05 => {
                 let (off, dr2, f) = ((b[1] >> 4) & 7, b[1] & 0x0F, f24(&b[2..5]));
@@ -861,7 +870,8 @@ fn judge_history_tx(region: &str, front: &str, dev: &DevCfg, model: &WModel, o: 
 
 pub struct WSys {
     nb: Option<NbCore<14, 0>>,
-    ac: Option<ACore<14, 0>>,
+    /// (the async device with the documented default of a one-entry downlink queue)
+    ac: Option<ACore<14, 0, 256, 1>>,
     front: String,
     dev: DevCfg,
     model: WModel,
@@ -1010,6 +1020,9 @@ fn w_alphabet(region: &str, nb: bool, joined: bool, otaa: bool) -> Vec<WEv> {
         c.push(("only-ch3".into(), cmds::link_adr(15, 15, 0x0008, 0, 1, false).bytes));
         c.push(("all-channels".into(), cmds::link_adr(15, 15, 0x000F, 0, 1, false).bytes));
     }
+    // downlinks that also carry application payload (it goes to the application's downlink queue, which may be full)
+    c.push(("plain+data".into(), vec![]));
+    c.push(("rxtiming-3+data".into(), vec![0x08, 3]));
     let drs: Vec<u8> = (0..8).filter(|d| rr::dr(region, *d).is_some() && !(region == "EU868" && *d == 6)).collect();
     let (lo_dr, hi_dr) = (drs[0], *drs.last().unwrap());
     c.push(("adr-lowest".into(), cmds::link_adr(lo_dr, 15, 0, 6, 1, false).bytes));
@@ -1043,7 +1056,7 @@ fn w_alphabet(region: &str, nb: bool, joined: bool, otaa: bool) -> Vec<WEv> {
 
 impl System for WSys {
     type Ev = WEv;
-    type Key = (VerifMac, Option<VerifNbState>, WModel, bool);
+    type Key = (VerifMac, Option<VerifNbState>, WModel, bool, usize);
 
     fn enabled(&self) -> Vec<WEv> {
         w_alphabet(&self.dev.region, self.front == "nb", self.joined, self.dev.otaa)
@@ -1058,8 +1071,13 @@ impl System for WSys {
         let model_mask: Vec<u8> = self.snap().region.channel_mask.to_vec();
         let o = match ev {
             WEv::Up { draw } => self.transact(false, *draw, None, None, None, None),
-            WEv::Cmd { bytes, window, .. } => {
-                let f = Some(down(bytes));
+            WEv::Cmd { bytes, window, label } => {
+                // (labels ending in "+data": the downlink also carries application payload, which goes to the queue)
+                let f = if label.ends_with("+data") {
+                    Some(Frame::Down { fcnt: Fcnt::Rel(1), confirmed: false, ack: false, fopts: bytes.clone(), port: Some(1), payload: vec![1], tamper: Tamper::None })
+                } else {
+                    Some(down(bytes))
+                };
                 if *window == 1 { self.transact(false, 0, f, None, None, None) } else { self.transact(false, 0, None, f, None, None) }
             }
             WEv::UpDrBetween { d } => self.transact(false, 0, None, None, Some(*d), None),
@@ -1145,7 +1163,13 @@ impl System for WSys {
         if let VerifMacState::Otaa { ref mut dev_nonce } = s.state {
             *dev_nonce = 0;
         }
-        (s, self.nb.as_ref().map(|c| c.st()), self.model.clone(), self.joined)
+        // (applications that leave downlinks in the queue: how many wait there is part of the state)
+        let parity = match self.snap().state {
+            VerifMacState::Joined(j) => (j.fcnt_up % 2) as usize,
+            _ => 0,
+        };
+        let q = if self.dev.hold_downlinks { self.ac.as_ref().map(|c| c.dev.verif_queued_downlinks()).unwrap_or(0) + parity * 16 } else { 0 };
+        (s, self.nb.as_ref().map(|c| c.st()), self.model.clone(), self.joined, q)
     }
 
     fn alive(&self) -> bool {
